@@ -289,14 +289,14 @@ func (a *AggregationProcess) ForAllExpiredFlowRecordsDo(callback FlowKeyRecordMa
 			return fmt.Errorf("callback execution failed for popped flow record with key: %v, record: %v, error: %v", pqItem.flowKey, pqItem.flowRecord, err)
 		}
 		// Delete the flow record if it is expired because of inactive expiry timeout.
-		if pqItem.inactiveExpireTime.Before(currTime) {
+		if !pqItem.inactiveExpireTime.After(currTime) {
 			if err = a.deleteFlowKeyFromMapWithoutLock(*pqItem.flowKey); err != nil {
 				return fmt.Errorf("error while deleting flow record after inactive expiry: %v", err)
 			}
 			continue
 		}
 		// Reset the expireTime for the popped item and push it to the priority queue.
-		if pqItem.activeExpireTime.Before(currTime) {
+		if !pqItem.activeExpireTime.After(currTime) {
 			// Reset the active expire timeout and push the record into priority
 			// queue.
 			pqItem.activeExpireTime = currTime.Add(a.activeExpiryTimeout)
